@@ -344,7 +344,7 @@ func init() {
 		Gen: func(tier string, seed int64) []fw.Case {
 			l := fw.NewCaseList("C18", tier, seed)
 			rng := l.Rng()
-			reps := l.N(10, 150)
+			reps := l.N(10, 600)
 			for r := 0; r < reps; r++ {
 				l.Add("packfile", c18Params{Stream: "packfile", Size: 1 + rng.Intn(20)}, 0)
 				l.Add("pktline", c18Params{Stream: "pktline", Size: 1 + rng.Intn(12)}, 0)
